@@ -381,7 +381,7 @@ func seqInts(n int) []int {
 }
 
 func genLigate(t *rapid.T) Case {
-	d := drawDesign(t, rapid.SampledFrom([]int{4, 4, 3, 5}).Draw(t, "overhang_len"), 12)
+	d := drawDesign(t, rapid.SampledFrom([]int{4, 4, 3, 5}).Draw(t, "overhang_len"), vk.Pick(12, 27))
 	c := Case{Kind: "ligate", Decoys: d.decoys}
 	for i, f := range d.frags {
 		if rapid.IntRange(0, 3).Draw(t, fmt.Sprintf("frag%d_flipped", i)) == 0 {
@@ -398,7 +398,7 @@ func genLigate(t *rapid.T) Case {
 func genGoldenGate(t *rapid.T) Case {
 	name := rapid.SampledFrom([]string{"BsaI", "BbsI", "BtgZI"}).Draw(t, "enzyme")
 	e := refclone.BuiltIn[name]
-	d := drawDesign(t, e.OverhangLen, 12)
+	d := drawDesign(t, e.OverhangLen, vk.Pick(12, 27))
 	c := Case{Kind: "goldengate", Enzyme: name, Decoys: d.decoys}
 	for i, f := range d.frags {
 		pad := func(nm string) string { return word(t, fmt.Sprintf("part%d_%s", i, nm), e.Skip, "ACGT") }
